@@ -430,6 +430,36 @@ Definition acc_chat_template (m : kvs) : str := acc_string m k_chat_template [].
 (** FileType: general.file_type when > 0, else fileTypeUnknown (= 33) *)
 Definition acc_file_type (m : kvs) : N := let t := acc_uint m k_file_type 0 in if 0 <? t then t else 33.
 
+(** the same accessors with Go's panics made explicit.  keyValue[T](kv, key, defaultValue...) after the repair: the stored value is
+    returned when it has type T (checked assertion), otherwise - and when the key is missing - [defaultValue[0]], an index
+    expression that panics when no default was passed (ParameterCount passes none). *)
+Inductive ares (A : Type) := AOk (a : A) | APanic (p : pan).
+Arguments AOk {A}. Arguments APanic {A}.
+
+Definition go_index0 {A} (l : list A) : ares A := match l with x :: _ => AOk x | [] => APanic PIndex end.
+
+Definition key_value {T} (proj : val -> option T) (m : kvs) (key : str) (dflt : list T) : ares T :=
+  match kv_get (key_for m key) m with
+  | Some v => match proj v with Some x => AOk x | None => go_index0 dflt end
+  | None => go_index0 dflt
+  end.
+Definition val_u64 (v : val) : option N := match v with VNum 10 x => Some x | _ => None end.
+
+(** what create (ggufLayers, detectChatTemplate, createModel) and show (Capabilities) call on a decoded file *)
+Definition r_architecture (m : kvs) : ares str := key_value val_str m k_architecture [s_unknown; []].   (* String(k, "unknown") *)
+Definition r_kind (m : kvs) : ares str := key_value val_str m k_type [s_unknown; []].
+Definition r_chat_template (m : kvs) : ares str := key_value val_str m k_chat_template [[]].
+Definition r_file_type (m : kvs) : ares N :=
+  match key_value val_u32 m k_file_type [0] with
+  | AOk t => AOk (if 0 <? t then t else 33)
+  | APanic p => APanic p
+  end.
+Definition r_parameter_count (m : kvs) : ares N := key_value val_u64 m k_param_count [].              (* no default *)
+
+Definition is_ok {A} (r : ares A) : bool := match r with AOk _ => true | APanic _ => false end.
+Definition accessors_ok (m : kvs) : bool :=
+  is_ok (r_architecture m) && is_ok (r_kind m) && is_ok (r_chat_template m) && is_ok (r_file_type m) && is_ok (r_parameter_count m).
+
 (** ggml.DetectContentType as its callers use it: the first four bytes of the blob (server code hands it a 4-byte buffer
     or a bytes.Buffer of capacity >= 512, so a shorter blob reads as zero-padded), little endian.
     0 unknown, 1 ggml, 2 ggmf, 3 ggjt, 4 ggla, 5 gguf *)
@@ -441,6 +471,79 @@ Definition detect_content_type (b : list N) : N :=
   else if w =? 1734831201 then 4
   else if (w =? 1179993927) || (w =? 1195857222) then 5
   else 0.
+
+(** * fs/ggml/type.go: fileType.String and ParseFileType (Tensor.Type() is fileType(Kind).String()) *)
+Definition file_type_names : list (N * str) :=
+  [ (0, [70;51;50])  (* F32 *);
+    (1, [70;49;54])  (* F16 *);
+    (2, [81;52;95;48])  (* Q4_0 *);
+    (3, [81;52;95;49])  (* Q4_1 *);
+    (4, [81;52;95;49;95;70;49;54])  (* Q4_1_F16 *);
+    (7, [81;56;95;48])  (* Q8_0 *);
+    (8, [81;53;95;48])  (* Q5_0 *);
+    (9, [81;53;95;49])  (* Q5_1 *);
+    (10, [81;50;95;75])  (* Q2_K *);
+    (11, [81;51;95;75;95;83])  (* Q3_K_S *);
+    (12, [81;51;95;75;95;77])  (* Q3_K_M *);
+    (13, [81;51;95;75;95;76])  (* Q3_K_L *);
+    (14, [81;52;95;75;95;83])  (* Q4_K_S *);
+    (15, [81;52;95;75;95;77])  (* Q4_K_M *);
+    (16, [81;53;95;75;95;83])  (* Q5_K_S *);
+    (17, [81;53;95;75;95;77])  (* Q5_K_M *);
+    (18, [81;54;95;75])  (* Q6_K *);
+    (19, [73;81;50;95;88;88;83])  (* IQ2_XXS *);
+    (20, [73;81;50;95;88;83])  (* IQ2_XS *);
+    (21, [81;50;95;75;95;83])  (* Q2_K_S *);
+    (22, [73;81;51;95;88;83])  (* IQ3_XS *);
+    (23, [73;81;51;95;88;88;83])  (* IQ3_XXS *);
+    (24, [73;81;49;95;83])  (* IQ1_S *);
+    (25, [73;81;52;95;78;76])  (* IQ4_NL *);
+    (26, [73;81;51;95;83])  (* IQ3_S *);
+    (27, [73;81;51;95;77])  (* IQ3_M *);
+    (28, [73;81;50;95;83])  (* IQ2_S *);
+    (29, [73;81;50;95;77])  (* IQ2_M *);
+    (30, [73;81;52;95;88;83])  (* IQ4_XS *);
+    (31, [73;81;49;95;77])  (* IQ1_M *);
+    (32, [66;70;49;54])  (* BF16 *) ].
+Definition s_unknown_ft : str := [117;110;107;110;111;119;110].
+Definition file_type_name (t : N) : str :=
+  match find (fun p => fst p =? t) file_type_names with Some p => snd p | None => s_unknown_ft end.
+Definition parse_names : list (str * N) :=
+  [ ([70;51;50], 0)  (* F32 *);
+    ([70;49;54], 1)  (* F16 *);
+    ([81;52;95;48], 2)  (* Q4_0 *);
+    ([81;52;95;49], 3)  (* Q4_1 *);
+    ([81;52;95;49;95;70;49;54], 4)  (* Q4_1_F16 *);
+    ([81;56;95;48], 7)  (* Q8_0 *);
+    ([81;53;95;48], 8)  (* Q5_0 *);
+    ([81;53;95;49], 9)  (* Q5_1 *);
+    ([81;50;95;75], 10)  (* Q2_K *);
+    ([81;51;95;75;95;83], 11)  (* Q3_K_S *);
+    ([81;51;95;75;95;77], 12)  (* Q3_K_M *);
+    ([81;51;95;75;95;76], 13)  (* Q3_K_L *);
+    ([81;52;95;75;95;83], 14)  (* Q4_K_S *);
+    ([81;52;95;75;95;77], 15)  (* Q4_K_M *);
+    ([81;53;95;75;95;83], 16)  (* Q5_K_S *);
+    ([81;53;95;75;95;77], 17)  (* Q5_K_M *);
+    ([81;54;95;75], 18)  (* Q6_K *);
+    ([73;81;50;95;88;88;83], 19)  (* IQ2_XXS *);
+    ([73;81;50;95;88;83], 20)  (* IQ2_XS *);
+    ([81;50;95;75;95;83], 21)  (* Q2_K_S *);
+    ([73;81;51;95;88;83], 22)  (* IQ3_XS *);
+    ([73;81;51;95;88;88;83], 23)  (* IQ3_XXS *);
+    ([73;81;49;95;83], 24)  (* IQ1_S *);
+    ([73;81;52;95;78;76], 25)  (* IQ4_NL *);
+    ([73;81;51;95;83], 26)  (* IQ3_S *);
+    ([73;81;51;95;77], 27)  (* IQ3_M *);
+    ([73;81;50;95;83], 28)  (* IQ2_S *);
+    ([73;81;50;95;77], 29)  (* IQ2_M *);
+    ([73;81;52;95;88;83], 30)  (* IQ4_XS *);
+    ([73;81;49;95;77], 31)  (* IQ1_M *);
+    ([66;70;49;54], 32)  (* BF16 *) ].
+(** ParseFileType: Some t, or None for the error case (which returns fileTypeUnknown = 33) *)
+Definition parse_file_type (s : str) : option N :=
+  match find (fun p => eqb_str (fst p) s) parse_names with Some p => Some (snd p) | None => None end.
+Definition file_type_unknown : N := 33.
 
 (** * WriteGGUF *)
 
@@ -483,6 +586,57 @@ Fixpoint insert_kv (e : str * wval) (l : wkvs) : wkvs :=
   | e' :: r => if str_ltb (fst e') (fst e) then e' :: insert_kv e r else e :: l
   end.
 Definition sort_kv (l : wkvs) : wkvs := fold_right insert_kv [] l.
+
+(** Tensor.block: [fmt.Sscanf(t.Name, "blk.%d.", &n)], -1 on any scan error.  The literal "blk." must match exactly; %d skips
+    blanks (fmt's isSpace, UTF-8 encoded; a newline - also after a carriage return - is an error), accepts one sign, then a
+    non-empty run of "0123456789_" that strconv.ParseInt(tok, 10, 64) must accept (so no underscore, value within int64);
+    then the literal "." must follow.  Trailing input is ignored. *)
+Definition s_blk : str := [98; 108; 107; 46].
+Definition is_numch (b : N) : bool := ((48 <=? b) && (b <=? 57)) || (b =? 95).
+Definition strip_space1 (r : str) : option str :=
+  match r with
+  | 9 :: t | 11 :: t | 12 :: t | 13 :: t | 32 :: t => Some t
+  | 194 :: 133 :: t | 194 :: 160 :: t => Some t                 (* U+0085, U+00A0 *)
+  | 225 :: 154 :: 128 :: t => Some t                            (* U+1680 *)
+  | 226 :: 128 :: x :: t =>                                     (* U+2000..U+200A, U+2028, U+2029, U+202F *)
+    if ((128 <=? x) && (x <=? 138)) || (x =? 168) || (x =? 169) || (x =? 175) then Some t else None
+  | 226 :: 129 :: 159 :: t => Some t                            (* U+205F *)
+  | 227 :: 128 :: 128 :: t => Some t                            (* U+3000 *)
+  | _ => None
+  end.
+Fixpoint skip_space (fuel : nat) (r : str) : option str :=      (* None = "unexpected newline" *)
+  match fuel with
+  | O => Some r
+  | Datatypes.S f =>
+    match r with
+    | 13 :: 10 :: _ => None
+    | 10 :: _ => None
+    | _ => match strip_space1 r with Some t => skip_space f t | None => Some r end
+    end
+  end.
+Fixpoint take_while (p : N -> bool) (l : str) : str :=
+  match l with x :: t => if p x then x :: take_while p t else [] | [] => [] end.
+Definition dec_value (digs : str) : Z := fold_left (fun a d => (10 * a + Z.of_N (d - 48))%Z) digs 0%Z.
+Definition split_sign (r : str) : bool * str :=
+  match r with 43 :: t => (false, t) | 45 :: t => (true, t) | _ => (false, r) end.
+Definition block_of (name : str) : Z :=
+  if prefixb s_blk name then
+    match skip_space (length name) (skipn 4 name) with
+    | None => (-1)%Z
+    | Some r =>
+      let '(neg, r1) := split_sign r in
+      let digs := take_while is_numch r1 in
+      match digs with
+      | [] => (-1)%Z
+      | _ =>
+        if existsb (N.eqb 95) digs then (-1)%Z
+        else
+          let v := if neg then (- dec_value digs)%Z else dec_value digs in
+          if ((v <? - Z.of_N two63) || (Z.of_N two63 - 1 <? v))%Z then (-1)%Z
+          else match skipn (length digs) r1 with 46 :: _ => v | _ => (-1)%Z end
+      end
+    end
+  else (-1)%Z.
 
 (** the comparator of slices.SortStableFunc in WriteGGUF on the block numbers i, j: <0, 0 or >0 *)
 Definition cmp_block (i j : Z) : Z :=
@@ -549,6 +703,9 @@ Definition write_ordered (fixed : bool) (kv : wkvs) (ts : list tensor) : list N 
 (** WriteGGUF (kv has distinct keys: it is a Go map; [block] is Tensor.block) *)
 Definition write_gguf (fixed : bool) (block : tensor -> Z) (kv : wkvs) (ts : list tensor) : list N :=
   write_ordered fixed kv (sort_ts block ts).
+(** ... with the real Tensor.block *)
+Definition tensor_block (t : tensor) : Z := block_of (t_name t).
+Definition write_gguf_real (fixed : bool) (kv : wkvs) (ts : list tensor) : list N := write_gguf fixed tensor_block kv ts.
 
 (** * What decoding a written file is expected to give *)
 
